@@ -251,11 +251,55 @@ EnvEffect(cfg, orc, o) ==   \* [set, val, miss]
          LET r == SaveArg(cfg, orc, o, dv, ev) IN [set |-> TRUE, val |-> r.val, miss |-> r.miss]
   ELSE [set |-> FALSE, val |-> dv, miss |-> FALSE]
 
+(* The program's own SetValue(name, values...) calls between the           *)
+(* definitions and Parse: Option.Save with all the values at once.  The     *)
+(* valid-value check covers every value first; a scalar takes the first     *)
+(* value; a slice takes all or nothing; a map stores pair by pair until the *)
+(* first text without "=".  Map keys are not lower-cased here: that setting *)
+(* reaches an option only when Parse meets it on the command line.          *)
+RECURSIVE FoldSave(_, _, _, _, _)
+FoldSave(cfg, orc, o, cur, vals) ==
+  IF vals = <<>> THEN SOk(cur)
+  ELSE LET r == SaveArg(cfg, orc, o, cur, Head(vals)) IN
+       IF r.ok THEN FoldSave(cfg, orc, o, r.val, Tail(vals)) ELSE r
+
+SetEffect(cfg, orc, o, cur, vals) ==
+  LET opt == Opt(cfg, o)
+      k   == opt.kind
+      c0  == [cfg EXCEPT !.lower = FALSE]
+  IN
+  IF vals = <<>> THEN SOk(SaveFlag(cfg, o, cur))
+  ELSE IF Len(opt.valid) > 0 /\ \E j \in 1..Len(vals) : vals[j] \notin Rng(opt.valid) THEN SFail("valid", cur)
+  ELSE IF k \in {"sslice", "islice", "fslice"} THEN
+         LET r == FoldSave(c0, orc, o, cur, vals) IN IF r.ok THEN r ELSE [r EXCEPT !.val = cur]
+  ELSE IF k = "smap" THEN FoldSave(c0, orc, o, cur, vals)
+  ELSE SaveArg(c0, orc, o, cur, vals[1])
+
+RECURSIVE ApplySets(_, _, _, _)
+ApplySets(cfg, orc, k, acc) ==
+  IF k > Len(cfg.sets) THEN acc
+  ELSE LET s == cfg.sets[k] IN
+       IF s.opt = 0 THEN ApplySets(cfg, orc, k + 1, [acc EXCEPT !.errs = Append(@, "notfound")])
+       ELSE LET r == SetEffect(cfg, orc, s.opt, acc.store[s.opt], s.vals) IN
+            ApplySets(cfg, orc, k + 1,
+                      [store |-> [acc.store EXCEPT ![s.opt] = r.val],
+                       errs  |-> Append(acc.errs, r.ek),
+                       miss  |-> acc.miss \/ r.miss])
+
+(* Values, SetValue results and verifiability after definition time.        *)
+Base(cfg, orc) ==
+  LET eff == [o \in 1..NOpts(cfg) |-> EnvEffect(cfg, orc, o)] IN
+  ApplySets(cfg, orc, 1, [store |-> [o \in 1..NOpts(cfg) |-> eff[o].val], errs |-> <<>>,
+                          miss |-> \E o \in 1..NOpts(cfg) : eff[o].miss])
+BaseVal(cfg, orc, o) == Base(cfg, orc).store[o]
+
 NoErr == [kind |-> "", name |-> <<>>, tok |-> <<>>, cands |-> {}, names |-> {}]
 NoRole == [r |-> "none", o |-> 0, ps |-> <<>>, ks |-> <<>>]
 
 InitState(cfg, orc, argv) ==
-  LET eff == [o \in 1..NOpts(cfg) |-> EnvEffect(cfg, orc, o)] IN
+  LET eff == [o \in 1..NOpts(cfg) |-> EnvEffect(cfg, orc, o)]
+      base == Base(cfg, orc)
+  IN
   [ phase  |-> "scan",
     act    |-> "Init",
     i      |-> 1,            \* iterator position (moves with value intake)
@@ -266,7 +310,8 @@ InitState(cfg, orc, argv) ==
     cur    |-> 0,
     cnt    |-> 0,
     passed |-> FALSE,
-    store  |-> [o \in 1..NOpts(cfg) |-> eff[o].val],
+    store  |-> base.store,
+    seterrs |-> base.errs,
     called |-> [o \in 1..NOpts(cfg) |-> eff[o].set \/ Opt(cfg, o).setcalled],
     as     |-> [o \in 1..NOpts(cfg) |-> IF eff[o].set THEN Opt(cfg, o).env ELSE <<>>],
     text   |-> [n \in 1..NNodes(cfg) |-> <<>>],
@@ -280,7 +325,7 @@ InitState(cfg, orc, argv) ==
     stop   |-> 0,            \* index of the require-order stop token, 0 if none
     corner |-> FALSE,        \* require-order stop inside a bundle after a value intake
     partial |-> FALSE,       \* require-order stop at an unknown letter after known letters of the same bundle
-    miss   |-> \E o \in 1..NOpts(cfg) : eff[o].miss,
+    miss   |-> base.miss,
     \* Dispatch
     derr   |-> "",
     dnames |-> {},
@@ -549,6 +594,7 @@ Outcome(cfg, st) ==
     dnames |-> st.dnames,
     ran    |-> st.ran,
     helpof |-> st.helpof,
+    seterrs |-> st.seterrs,
     miss   |-> st.miss ]
 
 =============================================================================
